@@ -582,6 +582,36 @@ def _inside_loop_over(fn, node, va) -> bool:
     return False
 
 
+def r10_gradient_join(repo: Repo, rep):
+    R = rep.rule("R-C03-10", "grad joins the per-variable gradients so that row r of the result holds row r's derivatives for flat (batch,) variables as well as for (batch, d) ones: "
+                 "column_stack (1-D gradients become columns), or a concatenation along the last axis of gradients that were lifted to two axes first", floor=1,
+                 why="cat / hstack of 1-D gradients appends the t-derivatives BELOW the x-derivatives: entry r of the result belongs to another row (and another variable) - both batch shapes are accepted today")
+    fi = repo.module(MOD).functions.get("grad")
+    if fi is None:
+        raise AnalysisError("grad vanished")
+    rep.saw(fi)
+    for n in ast.walk(fi.node):
+        if not (isinstance(n, ast.Return) and n.value is not None):
+            continue
+        v = n.value
+        if not (isinstance(v, ast.Call) and (attr_chain(v.func) or "").startswith("torch.") and v.args):
+            rep.undecided(R, fi.site(n), fi.fq, "the result is a torch join of the list of gradients", dump(v)[:80])
+            continue
+        ch = attr_chain(v.func)
+        src = dump(v.args[0])
+        lifted = any(k in src for k in ("atleast_2d", "unsqueeze(-1)", "unsqueeze(1)", "[:, None]", "reshape(", "view("))
+        if ch == "torch.column_stack":
+            ok = True
+        elif ch in ("torch.cat", "torch.concat", "torch.concatenate", "torch.hstack"):
+            ok = lifted
+        elif ch == "torch.stack":
+            ok = False
+        else:
+            rep.undecided(R, fi.site(n), fi.fq, "the result is a torch join of the list of gradients", dump(v)[:80])
+            continue
+        rep.check(R, ok, fi.site(n), fi.fq, "1-D gradients become columns of the result", dump(v)[:80], dump(v)[:80])
+
+
 def r4_short_circuit(repo: Repo, rep):
     R = rep.rule("R-C03-4", "zero short-circuits: when the graph ends (grad_fn is None) only the affected contribution is zero: laplacian skips that variable, "
                  "partial returns zeros shaped like the variable", floor=2,
@@ -622,6 +652,19 @@ def r4_short_circuit(repo: Repo, rep):
         rep.check(R, ok, fi.site(p.ret_node) if p.ret_node is not None else fi.site(), fi.fq, "returns zeros shaped like the current variable (all further derivatives of 0 are 0)", dump(r)[:80], dump(r)[:80])
     if hit == 0:
         rep.violation(R, fi.site(), fi.fq, "a vanished graph yields zero instead of an error", "no grad_fn test", "no short-circuit")
+    # the test is made on the quantity that is ABOUT to be differentiated: a derivative just taken whose graph ended is a constant, not zero
+    for loop in [n for n in ast.walk(fi.node) if isinstance(n, ast.For)]:
+        fresh = set()
+        for st in loop.body:
+            if isinstance(st, ast.If) and "grad_fn is None" in dump(st.test):
+                tested = {x.value.id for x in ast.walk(st.test) if isinstance(x, ast.Attribute) and x.attr == "grad_fn" and isinstance(x.value, ast.Name)}
+                zero = any(isinstance(r, ast.Return) and r.value is not None and "zeros" in dump(r.value) for b in st.body for r in ast.walk(b))
+                if zero:
+                    rep.check(R, not (tested & fresh), fi.site(st), fi.fq, "zero is returned when the quantity still to be differentiated has no graph (tested before this iteration's derivative is taken)",
+                              f"`{dump(st.test)}` tests the derivative just computed in this iteration", "graph test after the derivative")
+            for n in ast.walk(st):
+                if isinstance(n, ast.Assign) and any(isinstance(c, ast.Call) and (attr_chain(c.func) or "").endswith("autograd.grad") for c in ast.walk(n.value)):
+                    fresh |= {t.id for t in n.targets if isinstance(t, ast.Name)}
 
 
 VALUE_TESTS = ("any", "all", "item", "sum", "max", "min", "mean", "norm", "allclose", "equal", "isclose", "count_nonzero", "nonzero", "is_nonzero",
@@ -879,6 +922,7 @@ def run(repo: Repo, rep):
     r2_pairing(repo, rep)
     r3_tables(repo, rep)
     r4_short_circuit(repo, rep)
+    r10_gradient_join(repo, rep)
     r5_accumulators(repo, rep)
     r6_value_free_control(repo, rep)
     r7_no_memo(repo, rep)
